@@ -1760,7 +1760,34 @@ impl EsModuleInfo {
   }
 
   pub fn symbol_id_from_swc(&self, id: &Id) -> Option<SymbolId> {
-    self.swc_id_to_symbol_id.get(id).copied()
+    self
+      .swc_id_to_symbol_id
+      .get(id)
+      .copied()
+      .or_else(|| self.default_interface_symbol_id_from_unresolved(id))
+  }
+
+  /// swc's resolver does not hoist the name of an `export default interface`,
+  /// so a reference that comes before the declaration is left with the
+  /// unresolved context.
+  fn default_interface_symbol_id_from_unresolved(
+    &self,
+    id: &Id,
+  ) -> Option<SymbolId> {
+    if id.1 != self.source.unresolved_context() {
+      return None;
+    }
+    let symbol_id = *self.module_symbol().exports().get("default")?;
+    let is_match = self.symbol(symbol_id)?.decls().iter().any(|decl| {
+      matches!(
+        decl.maybe_node(),
+        Some(SymbolNodeRef::ExportDefaultDecl(ExportDefaultDecl {
+          decl: DefaultDecl::TsInterfaceDecl(n),
+          ..
+        })) if n.id.sym == id.0
+      )
+    });
+    is_match.then_some(symbol_id)
   }
 
   pub fn symbol_from_swc(&self, id: &Id) -> Option<&Symbol> {
